@@ -14,3 +14,23 @@ try:
     print("C lh+reg:", (lh + reg)(x).asnumpy())
 except Exception as e:
     print("C lh+reg:", type(e).__name__, e)
+
+# D  (fixes/C03_sinc_small_argument.diff) derivative of the point-wise sinc for small arguments:
+#    (cos(pi v) - sinc(v))/v cancels; true derivative ~ -pi^2 v / 3
+v = np.array([2.**-20, 2.**-27, 2.**-30])
+xs = ift.makeField(ift.makeDomain(ift.UnstructuredDomain(3)), v)
+jac = ift.ScalingOperator(xs.domain, 1.).sinc()(ift.Linearization.make_var(xs)).jac
+print("D library :", jac(ift.full(xs.domain, 1.)).asnumpy())
+print("D true    :", -np.pi**2*v/3)
+
+# E  (fixes/C03_einsum_lonely_sum_index.diff) an index summed over within one operand only: the Jacobian
+#    cannot be applied in adjoint direction (value and jac.times are fine)
+A, B, C = ift.UnstructuredDomain(2), ift.UnstructuredDomain(3), ift.UnstructuredDomain(4)
+mle = ift.MultiLinearEinsum({"a": (A, B), "b": (C,)}, "ij,k->ik")
+xm = ift.full(mle.domain, 1.)
+lin = mle(ift.Linearization.make_var(xm))
+print("E value   :", lin.val.asnumpy().tolist(), " == numpy:", np.einsum("ij,k->ik", np.ones((2, 3)), np.ones(4)).tolist())
+try:
+    print("E adjoint :", lin.jac.adjoint_times(ift.full(mle.target, 1.)).asnumpy())
+except Exception as e:
+    print("E adjoint :", type(e).__name__, e)
